@@ -109,6 +109,10 @@ def check(ck: Checker) -> None:
     from . import round7 as _r7
 
     _r7.exists_missing_only_by_check(ck, "C12.status")
+    from . import round11 as _r11
+
+    _r11.queried_dirs_registered_for_validation(ck, "C12.fromstore")
+    _r11.removed_hashes_stay_in_exists(ck, "C12.status")
 
 
 
